@@ -1658,6 +1658,23 @@ def structural_controls(prog: Program, actor: str, module: str,
         left_over = next((n for n in locals_ if flow.stale(use["node"], n) is not None), None)
         if left_over is not None:
             built["reports sent for the group of another arm"] = _splice(src, arg, left_over)
+    # 16. the name of the report channel loses the field that selects the subscription table
+    try:
+        import re
+
+        for f in channel_key_findings(prog, cls, roles):
+            for site_fi, site in f["sites"]:
+                msrc = site_fi.module.source
+                seg = ast.get_source_segment(msrc, site)
+                if seg is None or "report channel name without the operating-point flag" in built:
+                    continue
+                cut = re.sub(r"\{\s*\w+\." + FLAG_ATTR + r"\b[^{}]*\}", "", seg)
+                if cut != seg:
+                    sources[site_fi.module.name] = msrc
+                    built["report channel name without the operating-point flag"] = _splice(msrc, site, cut)
+                    built_module["report channel name without the operating-point flag"] = site_fi.module.name
+    except AnalysisError:
+        pass
     out = []
     for name, module_, old, new, rule in fallback:
         module_ = built_module.get(name, module_)
@@ -1905,3 +1922,268 @@ def arm_group_uses(prog: Program, cls: ClassInfo, roles: dict[str, FuncInfo]) ->
                             uses[key] = {"fn": fi, "flow": flow, "call": call, "callee": target, "param": param,
                                          "node": node.id, "bad": bad}
     return list(uses.values())
+
+
+# ------------------------------------------------------------------------------ report channel key (C11.CHAN)
+# Two subscriptions that the event loop files apart (another table, another key) must get their report senders from
+# different channels: the key handed to the channel registry has to contain, whole, every field of the subscription
+# that decides where the sender is stored.
+_INJECTIVE = {"str", "repr", "format", "sorted", "tuple", "list", "frozenset", "int", "ascii"}
+REGISTRY_LOOKUP = "get_or_create"
+
+
+def _assigned_values(fn: ast.AST, name: str) -> list[ast.AST]:
+    out: list[ast.AST] = []
+    for n in walk_no_nested(fn):
+        if isinstance(n, ast.Assign) and any(isinstance(t, ast.Name) and t.id == name for t in n.targets):
+            out.append(n.value)
+        elif isinstance(n, (ast.AnnAssign, ast.NamedExpr)) and isinstance(n.target, ast.Name) \
+                and n.target.id == name and n.value is not None:
+            out.append(n.value)
+    return out
+
+
+class NameFields:
+    """Which fields of a message appear *whole* in a string built from it: followed through f-strings (any
+    conversion / `=` / format spec), `+`, `%`, `.format`, `.join`, str/repr/sorted/tuple..., locals, properties and
+    helper methods / module functions (parameters bound to the arguments).  A field that only appears inside another
+    computation (`len(x.ids)`, `x.priority % 2`, a subscript) is not whole: two different values can give one name."""
+
+    def __init__(self, prog: Program, msg_cls: ClassInfo) -> None:
+        self.prog = prog
+        self.msg_cls = msg_cls
+        self.fields = set(dataclass_fields(msg_cls))
+        self.sites: list[tuple[FuncInfo, ast.AST]] = []  # the string-building expressions read (for the report)
+
+    def of(self, fi: FuncInfo, e: ast.AST | None, objs: set[str], env: dict[str, set[str]], depth: int = 0) -> set[str]:
+        if e is None or depth > 10:
+            return set()
+        rec = lambda x, env_=env: self.of(fi, x, objs, env_, depth + 1)  # noqa: E731
+        if isinstance(e, ast.Attribute):
+            if isinstance(e.value, ast.Name) and e.value.id in objs:
+                if e.attr in self.fields:
+                    return {e.attr}
+                m = self.prog.resolve_method(self.msg_cls, e.attr)
+                if m is not None and any(ast.unparse(d).endswith("property") for d in m.node.decorator_list):
+                    return self._returns(m, {m.params[0]} if m.params else set(), {}, depth + 1)
+            return set()
+        if isinstance(e, ast.Name):
+            if e.id in env:
+                return set(env[e.id])
+            out: set[str] = set()
+            for v in _assigned_values(fi.node, e.id):
+                out |= rec(v)
+            return out
+        if isinstance(e, ast.JoinedStr):
+            if not any(s is e for _f, s in self.sites):
+                self.sites.append((fi, e))
+            return set().union(*[rec(v) for v in e.values]) if e.values else set()
+        if isinstance(e, ast.FormattedValue):
+            return rec(e.value)
+        if isinstance(e, ast.BinOp) and isinstance(e.op, (ast.Add, ast.Mod)):
+            return rec(e.left) | rec(e.right)
+        if isinstance(e, (ast.Tuple, ast.List, ast.Set)):
+            return set().union(*[rec(x) for x in e.elts]) if e.elts else set()
+        if isinstance(e, ast.Starred):
+            return rec(e.value)
+        if isinstance(e, ast.IfExp):
+            return rec(e.body) | rec(e.orelse) | rec(e.test)
+        if isinstance(e, (ast.ListComp, ast.GeneratorExp, ast.SetComp)):
+            env2 = dict(env)
+            for g in e.generators:
+                got = self.of(fi, g.iter, objs, env2, depth + 1)
+                for t in ast.walk(g.target):
+                    if isinstance(t, ast.Name):
+                        env2[t.id] = got
+            return self.of(fi, e.elt, objs, env2, depth + 1)
+        if isinstance(e, ast.Await):
+            return rec(e.value)
+        if isinstance(e, ast.Call):
+            args = list(e.args) + [k.value for k in e.keywords]
+            f = e.func
+            if isinstance(f, ast.Name) and f.id in _INJECTIVE:
+                return set().union(*[rec(a) for a in args]) if args else set()
+            if isinstance(f, ast.Attribute) and f.attr in ("format", "join", "format_map"):
+                return rec(f.value) | (set().union(*[rec(a) for a in args]) if args else set())
+            callee: FuncInfo | None = None
+            new_objs: set[str] = set()
+            if isinstance(f, ast.Attribute) and isinstance(f.value, ast.Name) and f.value.id in objs:
+                callee = self.prog.resolve_method(self.msg_cls, f.attr)
+                if callee is not None and callee.params and not _is_static(callee.node):
+                    new_objs = {callee.params[0]}
+            elif isinstance(f, ast.Attribute) and isinstance(f.value, ast.Name) and f.value.id == "self" \
+                    and fi.cls is not None:
+                callee = self.prog.resolve_method(fi.cls, f.attr)
+            elif isinstance(f, (ast.Name, ast.Attribute)):
+                got = self.prog.resolve_name(fi.module, ast.unparse(f))
+                callee = got if isinstance(got, FuncInfo) else None
+            if callee is None:
+                return set()
+            params = list(callee.params)
+            if callee.cls is not None and params and not _is_static(callee.node):
+                recv = params.pop(0)
+                if isinstance(f, ast.Attribute) and isinstance(f.value, ast.Name) and f.value.id in objs:
+                    new_objs = {recv}
+            env2 = {}
+            for p, a in zip(params, e.args):
+                env2[p] = rec(a)
+                if isinstance(a, ast.Name) and a.id in objs:
+                    new_objs.add(p)
+            for k in e.keywords:
+                if k.arg is not None:
+                    env2[k.arg] = rec(k.value)
+                    if isinstance(k.value, ast.Name) and k.value.id in objs:
+                        new_objs.add(k.arg)
+            return self._returns(callee, new_objs, env2, depth + 1)
+        return set()
+
+    def _returns(self, fi: FuncInfo, objs: set[str], env: dict[str, set[str]], depth: int) -> set[str]:
+        rets = [n for n in walk_no_nested(fi.node) if isinstance(n, ast.Return) and n.value is not None]
+        if not rets:
+            return set()
+        for r in rets:
+            if not any(s is r.value for _f, s in self.sites):
+                self.sites.append((fi, r.value))
+        got = [self.of(fi, r.value, objs, env, depth) for r in rets]
+        out = got[0]
+        for g in got[1:]:
+            out = out & g  # every name the method can return must contain the field
+        return out
+
+
+def _msg_fields_read(fn: ast.AST, e: ast.AST, objs: set[str], fields: set[str], depth: int = 0) -> set[str]:
+    """Fields of the message the expression reads, directly (`sub.priority`) or through locals bound to them."""
+    out: set[str] = set()
+    for n in ast.walk(e):
+        if isinstance(n, ast.Attribute) and isinstance(n.value, ast.Name) and n.value.id in objs and n.attr in fields:
+            out.add(n.attr)
+        elif isinstance(n, ast.Name) and isinstance(n.ctx, ast.Load) and n.id not in objs and depth < 4:
+            for v in _assigned_values(fn, n.id):
+                out |= _msg_fields_read(fn, v, objs, fields, depth + 1)
+    return out
+
+
+def filing_fields(fn: ast.AST, objs: set[str], fields: set[str]) -> dict[str, list[ast.AST]]:
+    """Which fields of the subscription decide where its report sender is stored: field -> the constructs that use
+    it (a test that chooses between the subscription tables; a key of a table / of the per-group map in it)."""
+    def has_table(nodes: Iterable[ast.AST]) -> bool:
+        return any(isinstance(x, ast.Attribute) and x.attr in SUBS_ATTRS for n in nodes for x in ast.walk(n))
+
+    aliases = {t.id for n in walk_no_nested(fn) if isinstance(n, (ast.Assign, ast.AnnAssign)) and n.value is not None
+               and has_table([n.value])
+               for t in (n.targets if isinstance(n, ast.Assign) else [n.target]) if isinstance(t, ast.Name)}
+
+    def is_table(e: ast.AST) -> bool:
+        while isinstance(e, ast.Subscript):
+            e = e.value
+        if isinstance(e, ast.Call) and isinstance(e.func, ast.Attribute) and e.func.attr in ("setdefault", "get"):
+            return is_table(e.func.value)
+        return (isinstance(e, ast.Attribute) and e.attr in SUBS_ATTRS) or (isinstance(e, ast.Name) and e.id in aliases) \
+            or (isinstance(e, ast.IfExp) and has_table([e]))
+
+    out: dict[str, list[ast.AST]] = {}
+
+    def note(expr: ast.AST, where: ast.AST) -> None:
+        for f in sorted(_msg_fields_read(fn, expr, objs, fields)):
+            out.setdefault(f, []).append(where)
+
+    for n in walk_no_nested(fn):
+        if isinstance(n, (ast.If, ast.IfExp)):
+            body = n.body if isinstance(n.body, list) else [n.body]
+            orelse = n.orelse if isinstance(n.orelse, list) else [n.orelse]
+            names_tables = {x.attr for b in (body, orelse) for s in b for x in ast.walk(s)
+                            if isinstance(x, ast.Attribute) and x.attr in SUBS_ATTRS}
+            in_true = {x.attr for s in body for x in ast.walk(s) if isinstance(x, ast.Attribute) and x.attr in SUBS_ATTRS}
+            in_false = {x.attr for s in orelse for x in ast.walk(s) if isinstance(x, ast.Attribute) and x.attr in SUBS_ATTRS}
+            if names_tables and in_true != in_false:
+                note(n.test, n.test)  # the test decides which table
+        elif isinstance(n, ast.Subscript) and is_table(n.value):
+            note(n.slice, n)
+        elif isinstance(n, ast.Call) and isinstance(n.func, ast.Attribute) and n.func.attr in ("setdefault", "get", "pop") \
+                and is_table(n.func.value) and n.args:
+            note(n.args[0], n)
+        elif isinstance(n, ast.Assign) and isinstance(n.value, ast.Dict) \
+                and any(isinstance(t, ast.Subscript) and is_table(t.value) for t in n.targets):
+            for k in n.value.keys:
+                if k is not None:
+                    note(k, n)
+        elif isinstance(n, ast.Compare) and any(isinstance(o, (ast.In, ast.NotIn)) for o in n.ops) \
+                and any(is_table(c) for c in n.comparators):
+            note(n.left, n)
+    return out
+
+
+def channel_key_findings(prog: Program, cls: ClassInfo, roles: dict[str, FuncInfo]) -> list[dict[str, Any]]:
+    """For every look-up of a report channel in the registry made from the event loop or a private method it runs
+    (`<registry>.get_or_create(T, key)`):
+    {"fn", "call", "key", "routing": field -> constructs, "named": fields whole in the key, "sites": builders}.
+    The routing fields are read from every such method that names the subscription tables; the local that denotes
+    the subscription message is followed across the calls between them (argument <-> parameter)."""
+    _proposal, sub_classes = group_message_classes(prog)
+    stop = {fi.name for r, fi in roles.items() if r != "run"}
+    funcs = [fi for fi in reachable_methods(prog, cls, roles["run"], stop) if fi.cls is not None]
+    by_name = {fi.name: fi for fi in funcs}
+    found: list[tuple[FuncInfo, ast.Call, ast.AST, ClassInfo]] = []
+    objs: dict[str, set[str]] = {fi.name: set() for fi in funcs}
+    for fi in funcs:
+        for call in [n for n in walk_no_nested(fi.node) if isinstance(n, ast.Call) and isinstance(n.func, ast.Attribute)
+                     and n.func.attr == REGISTRY_LOOKUP]:
+            key = call.args[1] if len(call.args) > 1 else next(
+                (k.value for k in call.keywords if k.arg in ("key", "name", "channel_name")), None)
+            if key is None:
+                raise AnalysisError(f"{fi.qual}: line {call.lineno}: the key of the channel-registry look-up is not "
+                                    "recognised")
+            for sc in sub_classes:
+                member = set(dataclass_fields(sc)) | set(sc.methods)
+                # the local(s) that denote the subscription message: what the key (through locals) is taken from
+                exprs = [key]
+                if isinstance(key, ast.Name):
+                    exprs += _assigned_values(fi.node, key.id)
+                mine = {n.value.id for e in exprs for n in ast.walk(e) if isinstance(n, ast.Attribute)
+                        and isinstance(n.value, ast.Name) and n.attr in member and n.value.id != "self"}
+                mine |= {a.id for e in exprs for c in ast.walk(e) if isinstance(c, ast.Call)
+                         for a in c.args if isinstance(a, ast.Name) and any(
+                             isinstance(x, ast.Attribute) and isinstance(x.value, ast.Name) and x.value.id == a.id
+                             and x.attr in dataclass_fields(sc) for x in ast.walk(fi.node))}
+                if mine:
+                    objs[fi.name] |= mine
+                    found.append((fi, call, key, sc))
+                    break
+            else:
+                raise AnalysisError(f"{fi.qual}: line {call.lineno}: the key `{ast.unparse(key)}` of the report "
+                                    "channel is not derived from the subscription message in a recognised way")
+    # the message travels between the methods of the arm: argument <-> parameter, both ways
+    changed = bool(found)
+    while changed:
+        changed = False
+        for fi in funcs:
+            for c in walk_no_nested(fi.node):
+                if not (isinstance(c, ast.Call) and isinstance(c.func, ast.Attribute) and isinstance(c.func.value, ast.Name)
+                        and c.func.value.id == "self" and c.func.attr in by_name):
+                    continue
+                callee = by_name[c.func.attr]
+                params = callee.params[1:] if callee.params and callee.params[0] in ("self", "cls") else callee.params
+                pairs = list(zip(params, c.args)) + [(k.arg, k.value) for k in c.keywords if k.arg is not None]
+                for p_, a in pairs:
+                    if not isinstance(a, ast.Name):
+                        continue
+                    if a.id in objs[fi.name] and p_ not in objs[callee.name]:
+                        objs[callee.name].add(p_)
+                        changed = True
+                    if p_ in objs[callee.name] and a.id not in objs[fi.name]:
+                        objs[fi.name].add(a.id)
+                        changed = True
+    out: list[dict[str, Any]] = []
+    for fi, call, key, sc in found:
+        fields = set(dataclass_fields(sc))
+        routing: dict[str, list[tuple[FuncInfo, ast.AST]]] = {}
+        for g in funcs:
+            if not objs[g.name] or not any(isinstance(x, ast.Attribute) and x.attr in SUBS_ATTRS for x in ast.walk(g.node)):
+                continue
+            for f_, where in filing_fields(g.node, objs[g.name], fields).items():
+                routing.setdefault(f_, []).extend((g, w) for w in where)
+        nf = NameFields(prog, sc)
+        named = nf.of(fi, key, objs[fi.name], {})
+        out.append({"fn": fi, "call": call, "key": key, "cls": sc, "routing": routing, "named": named,
+                    "sites": nf.sites})
+    return out
